@@ -1,4 +1,5 @@
 (* Proofs for C12 (model/StreamLoop.v, spec/FrameSpec.v). *)
+From Coq Require Import Sorted.
 From Cam Require Import Outcome Bytes Ack Stream Payload StreamLoop FrameSpec GenCPLayout StreamLayout P_C08 P_C11.
 
 (* ---- lists ---------------------------------------------------------------------------- *)
@@ -345,4 +346,348 @@ Proof.
   destruct Hok as [v Hv]. rewrite Hv.
   split; [reflexivity|]. split; [discriminate|]. split; [exact Hwl|]. split; [exact Hwt|].
   intros kb Hkb; discriminate.
+Qed.
+
+(* ---- invariants of the transition system ------------------------------------------------------ *)
+
+Ltac sf := cbn [st_script st_prm st_pos st_lbuf st_tbuf st_pbo st_pending st_pq st_cp st_bq st_cb st_rx
+  st_cancel st_ctl st_zombies st_g g_consumed g_istart g_cur g_att g_hist g_fail g_done
+  set_pos consume abandon] in *.
+
+Definition keep_ok (q : params) (k : option (list Z)) : Prop := forall b, k = Some b -> bufok q b.
+
+Definition pos_ok (s : state) : Prop :=
+  let q := st_prm s in
+  match st_pos s with
+  | LIdle | LHead | LBuf => st_pending s = []
+  | LPanic => False
+  | LNew buf => bufok q buf /\ st_pending s = []
+  | LSubmit buf k => bufok q buf /\ (k < nslots q)%nat /\ st_pending s = firstn k (slots q)
+  | LPoll buf ds => bufok q buf /\ (length ds < nslots q)%nat /\
+                    fits ds (firstn (length ds) (slots q)) /\ st_pending s = skipn (length ds) (slots q)
+  | LSend it keep => keep_ok q keep
+  | LDrop keep => keep_ok q keep
+  end.
+
+Record Inv (s : state) : Prop := {
+  i_prm : prm_ok (st_prm s) = true;
+  i_lbuf : zlen (st_lbuf s) = q_leader (st_prm s);
+  i_tbuf : zlen (st_tbuf s) = q_trailer (st_prm s);
+  i_pbo : keep_ok (st_prm s) (st_pbo s);
+  i_bq : Forall (fun p => bytes_ok (p_buf p)) (st_bq s);
+  i_script : script_ok (st_script s);
+  i_pos : pos_ok s;
+  i_wait : st_cancel s = CWaiting -> st_ctl s = KStopping;
+  i_taken : st_cancel s = CTaken -> st_ctl s = KStopping /\ st_pos s = LIdle;
+  i_idle : st_ctl s = KIdle -> st_cancel s = CNone -> st_pos s = LIdle
+}.
+
+
+Lemma prm_ok_nonneg q : prm_ok q = true ->
+  0 <= q_leader q /\ 0 <= q_trailer q /\ 0 <= q_psize q /\ 0 <= q_pcount q /\ 0 <= q_f1 q /\ 0 <= q_f2 q.
+Proof.
+  unfold prm_ok. intros H. repeat (apply andb_prop in H; destruct H as [H ?]). lia.
+Qed.
+
+Lemma max_payload_nonneg q : prm_ok q = true -> 0 <= max_payload q.
+Proof. intros H. apply prm_ok_nonneg in H. unfold max_payload. nia. Qed.
+
+Lemma zlen_zeros n : 0 <= n -> zlen (zeros n) = n.
+Proof. intros H. unfold zeros. rewrite zlen_repeat. lia. Qed.
+
+Lemma bufok_zeros q : prm_ok q = true -> bufok q (zeros (max_payload q)).
+Proof.
+  intros H. split; [apply zlen_zeros, max_payload_nonneg, H|apply bytes_ok_repeat0].
+Qed.
+
+Lemma bufok_resize q b : prm_ok q = true -> bytes_ok b -> bufok q (resize (max_payload q) b).
+Proof.
+  intros H Hb. pose proof (max_payload_nonneg q H). unfold resize. split.
+  - rewrite zlen_app, zlen_take_min, zlen_repeat. pose proof (zlen_nonneg b). lia.
+  - apply bytes_ok_app; [now apply bytes_ok_take|apply bytes_ok_repeat0].
+Qed.
+
+Lemma nslots_pos q : (0 < nslots q)%nat.
+Proof. unfold nslots, slots. cbn [length]. lia. Qed.
+
+Lemma firstn_S_nth {A} (l : list A) k z : nth_error l k = Some z -> firstn (S k) l = firstn k l ++ [z].
+Proof.
+  revert k. induction l as [|x l IH]; intros [|k] H; cbn [nth_error] in H; try discriminate.
+  - inversion H; subst. reflexivity.
+  - cbn [firstn app]. f_equal. apply IH, H.
+Qed.
+
+Lemma skipn_S_cons {A} (l : list A) k x r : skipn k l = x :: r -> skipn (S k) l = r.
+Proof.
+  revert k. induction l as [|y l IH]; intros [|k] H; cbn [skipn] in *; try discriminate.
+  - inversion H; subst. reflexivity.
+  - destruct l; [destruct k; discriminate|]. apply (IH k H).
+Qed.
+
+Lemma skipn_nth {A} (l : list A) k x r : skipn k l = x :: r -> nth_error l k = Some x.
+Proof.
+  revert k. induction l as [|y l IH]; intros [|k] H; cbn [skipn nth_error] in *; try discriminate.
+  - inversion H; subst. reflexivity.
+  - apply IH, H.
+Qed.
+
+Lemma forallb_bytes l : forallb is_byteb l = true -> bytes_ok l.
+Proof.
+  induction l as [|x l IH]; cbn [forallb]; intros H; constructor.
+  - apply andb_prop in H. destruct H as [H _]. unfold is_byteb in H. apply andb_prop in H.
+    unfold is_byte. destruct H as [H1 H2]. apply Z.leb_le in H1. apply Z.ltb_lt in H2. lia.
+  - apply IH. apply andb_prop in H. tauto.
+Qed.
+
+Lemma fits_first q d ds n : fits (d :: ds) (firstn n (slots q)) -> zlen d <= q_leader q.
+Proof.
+  unfold slots. destruct n as [|n]; cbn [firstn]; intros H; inversion H; subst. tauto.
+Qed.
+
+Lemma zlen_lbuf_after q lbuf ds n : zlen lbuf = q_leader q ->
+  fits ds (firstn n (slots q)) -> zlen (lbuf_after lbuf ds) = q_leader q.
+Proof.
+  intros Hl Hf. destruct ds as [|d ds]; cbn [lbuf_after]; [exact Hl|].
+  pose proof (fits_first _ _ _ _ Hf). pose proof (zlen_nonneg d).
+  rewrite zlen_write_at; lia.
+Qed.
+
+Lemma fits_snoc ds d szs sz : fits ds szs -> bytes_ok d -> zlen d <= sz -> fits (ds ++ [d]) (szs ++ [sz]).
+Proof.
+  intros H Hb Hl. apply Forall2_app; [exact H|]. constructor; [split; auto|constructor].
+Qed.
+
+Ltac step_cases H :=
+  unfold step in H;
+  repeat match type of H with
+  | context [match ?x with _ => _ end] => destruct x eqn:?; try discriminate
+  end;
+  try (apply Ok_inj in H); try (injection H as H); subst.
+
+
+Lemma fits_extend q ds d z : fits ds (firstn (length ds) (slots q)) ->
+  nth_error (slots q) (length ds) = Some z -> bytes_ok d -> zlen d <= z ->
+  fits (ds ++ [d]) (firstn (length (ds ++ [d])) (slots q)).
+Proof.
+  intros Hf Hn Hb Hl. rewrite app_length. cbn [length]. rewrite Nat.add_1_r.
+  rewrite (firstn_S_nth _ _ _ Hn). now apply fits_snoc.
+Qed.
+
+Lemma step_inv_polldata s len s' : Inv s -> step true s (LPollData len) = Some s' -> Inv s'.
+Proof.
+  intros [Hprm Hlb Htb Hpbo Hbq Hsc Hpos Hw Ht Hi] H.
+  unfold pos_ok in Hpos. unfold step in H.
+  destruct (st_pos s) eqn:Ep; try discriminate.
+  destruct (st_script s) as [|[d| |] rest] eqn:Es; try discriminate.
+  destruct (nth_error (slots (st_prm s)) (length ds)) as [z|] eqn:En; try discriminate.
+  destruct (st_pending s) as [|p0 pend'] eqn:Epd; try discriminate.
+  destruct ((len =? zlen d) && (zlen d <=? z)) eqn:Ec; try discriminate.
+  apply andb_prop in Ec. destruct Ec as [_ Ec]. apply Z.leb_le in Ec.
+  destruct Hpos as [Hbuf [Hlen [Hfit Hpend]]].
+  assert (Hbd : bytes_ok d) by (exact (Forall_inv Hsc)).
+  assert (Hsr : script_ok rest) by (exact (Forall_inv_tail Hsc)).
+  pose proof (fits_extend _ _ _ _ Hfit En Hbd Ec) as Hfit'.
+  assert (Hl' : length (ds ++ [d]) = S (length ds)) by (rewrite app_length; cbn [length]; lia).
+  destruct (length (ds ++ [d]) =? nslots (st_prm s))%nat eqn:Ek.
+  - apply Nat.eqb_eq in Ek. unfold nslots in Ek. rewrite Ek, firstn_all in Hfit'.
+    destruct (finish_spec _ _ _ _ _ Hprm Hlb Htb Hbuf Hfit') as [f [Hf [_ [_ [Hfl [Hft Hfk]]]]]].
+    rewrite Hf in H. injection H as H. subst s'.
+    constructor; unfold pos_ok; sf; auto; try solve [intuition congruence].
+  - apply Nat.eqb_neq in Ek. injection H as H. subst s'.
+    constructor; unfold pos_ok; sf; auto; try solve [intuition congruence].
+    split; [exact Hbuf|]. split; [lia|]. split; [exact Hfit'|].
+    rewrite Hl'. symmetry. eapply skipn_S_cons. symmetry. exact Hpend.
+Qed.
+
+Lemma step_inv s l s' : Inv s -> step true s l = Some s' -> Inv s'.
+Proof.
+  intros [Hprm Hlb Htb Hpbo Hbq Hsc Hpos Hw Ht Hi] H.
+  unfold pos_ok in Hpos.
+  destruct l; try (eapply step_inv_polldata; [constructor; eassumption|eassumption]); step_cases H.
+  all: try (constructor; unfold pos_ok in *; sf; auto; try congruence; try solve [intuition congruence]).
+  all: try match goal with
+    | Hs : script_ok (_ :: ?l) |- script_ok ?l => exact (Forall_inv_tail Hs)
+    | |- zlen (lbuf_after _ _) = _ => eapply zlen_lbuf_after; [eassumption|apply Hpos]
+    | |- zlen (zeros _) = _ => apply zlen_zeros; match goal with Hq : prm_ok _ = true |- _ => apply prm_ok_nonneg in Hq; lia end
+    end.
+  all: try match goal with
+    | |- bufok _ (zeros _) /\ _ => split; [apply bufok_zeros; assumption|assumption]
+    | Hb : Forall _ (_ :: ?l) |- Forall _ ?l => exact (Forall_inv_tail Hb)
+    | Hb : Forall _ (?p :: _) |- bufok _ (resize _ (p_buf ?p)) /\ _ =>
+      split; [apply bufok_resize; [assumption|exact (Forall_inv Hb)]|assumption]
+    | |- _ /\ (0 < nslots _)%nat /\ _ => destruct Hpos; split; [assumption|split; [apply nslots_pos|assumption]]
+    | Hc : (_ && forallb is_byteb (p_buf ?p)) = true |- Forall _ (_ ++ [?p]) =>
+      apply andb_prop in Hc; destruct Hc as [_ Hc]; apply Forall_app; split;
+      [assumption|constructor; [apply forallb_bytes, Hc|constructor]]
+    end.
+  - destruct Hpos as [Hb [Hk Hp]].
+    match goal with He : (S _ =? nslots _)%nat = true, Hn : nth_error _ _ = Some _ |- _ =>
+      apply Nat.eqb_eq in He;
+      split; [exact Hb|]; split; [cbn [length]; apply nslots_pos|]; split; [constructor|];
+      cbn [length skipn]; rewrite Hp; rewrite <- (firstn_S_nth _ _ _ Hn);
+      rewrite He; apply firstn_all end.
+  - destruct Hpos as [Hb [Hk Hp]].
+    match goal with He : (S _ =? nslots _)%nat = false, Hn : nth_error _ _ = Some _ |- _ =>
+      apply Nat.eqb_neq in He;
+      split; [exact Hb|]; split; [lia|]; rewrite Hp; symmetry; apply firstn_S_nth; exact Hn end.
+Qed.
+
+
+Lemma inv_init sc cp cb : script_ok sc -> Inv (init sc cp cb).
+Proof.
+  intros H. constructor; unfold pos_ok, keep_ok; cbn; auto; try discriminate.
+Qed.
+
+Lemma run_inv ls : forall s s', Inv s -> run true s ls = Some s' -> Inv s'.
+Proof.
+  induction ls as [|l ls IH]; intros s s' Hi H; cbn [run] in H.
+  - inversion H; subst; exact Hi.
+  - destruct (step true s l) as [s1|] eqn:E; [|discriminate].
+    eapply IH; [eapply step_inv; eassumption|exact H].
+Qed.
+
+(* ---- history ---- *)
+
+Definition gbound (s : state) : nat :=
+  match st_pos s with
+  | LSubmit _ _ | LPoll _ _ | LSend _ _ => g_istart (st_g s)
+  | _ => g_consumed (st_g s)
+  end.
+
+Definition complete (e : aentry) : bool := match a_ds e with Some _ => true | None => false end.
+
+Definition cur_entry (s : state) (it : item) : aentry :=
+  {| a_prm := st_prm s; a_start := g_istart (st_g s); a_ds := g_cur (st_g s); a_item := it |}.
+
+Record GInv (sc : list xfer) (s : state) : Prop := {
+  gi_script : st_script s = skipn (g_consumed (st_g s)) sc;
+  gi_le : (g_istart (st_g s) <= g_consumed (st_g s))%nat;
+  gi_poll : forall buf ds, st_pos s = LPoll buf ds ->
+    g_consumed (st_g s) = (g_istart (st_g s) + length ds)%nat /\
+    firstn (length ds) (skipn (g_istart (st_g s)) sc) = map XData ds;
+  gi_sub : forall buf k, st_pos s = LSubmit buf k -> g_consumed (st_g s) = g_istart (st_g s);
+  gi_send : forall it keep, st_pos s = LSend it keep ->
+    entry_ok sc (cur_entry s it) /\ (g_cur (st_g s) <> None -> (g_istart (st_g s) < g_consumed (st_g s))%nat);
+  gi_att : Forall (entry_ok sc) (g_att (st_g s));
+  gi_hist : Forall (entry_ok sc) (g_hist (st_g s));
+  gi_bnd : Forall (fun e => complete e = true -> (a_start e < gbound s)%nat) (g_hist (st_g s));
+  gi_sorted : StronglySorted lt (map a_start (filter complete (g_hist (st_g s))));
+  gi_nofail : g_fail (st_g s) = 0%nat -> g_hist (st_g s) = g_att (st_g s);
+  gi_pq : exists pre, map a_item (g_hist (st_g s)) = pre ++ st_pq s
+}.
+
+Lemma firstn_skipn_snoc {A} (sc : list A) i n x rest :
+  skipn (i + n) sc = x :: rest -> firstn (S n) (skipn i sc) = firstn n (skipn i sc) ++ [x].
+Proof.
+  intros H. apply firstn_S_nth. eapply skipn_nth. rewrite skipn_skipn_add. exact H.
+Qed.
+
+Lemma sorted_snoc l x : StronglySorted lt l -> Forall (fun y => (y < x)%nat) l -> StronglySorted lt (l ++ [x]).
+Proof.
+  induction 1 as [|y l Hs IH Hy]; intros Hf; cbn [app].
+  - constructor; constructor.
+  - inversion Hf; subst. constructor; [apply IH; assumption|].
+    apply Forall_app. split; [assumption|constructor; [assumption|constructor]].
+Qed.
+
+Lemma bnd_mono l (a b : nat) : (a <= b)%nat ->
+  Forall (fun e => complete e = true -> (a_start e < a)%nat) l ->
+  Forall (fun e => complete e = true -> (a_start e < b)%nat) l.
+Proof. intros Hab H. eapply Forall_impl; [|exact H]. cbn. intros e He Hc. specialize (He Hc). lia. Qed.
+
+Lemma ginv_init sc cp cb : GInv sc (init sc cp cb).
+Proof.
+  constructor; cbn; auto; try discriminate; try constructor. exists []. reflexivity.
+Qed.
+
+
+Lemma bnd_filter l b : Forall (fun e => complete e = true -> (a_start e < b)%nat) l ->
+  Forall (fun y => (y < b)%nat) (map a_start (filter complete l)).
+Proof.
+  induction 1 as [|e l He Hl IH]; cbn [filter map]; [constructor|].
+  destruct (complete e) eqn:E; cbn [map]; [constructor; auto|exact IH].
+Qed.
+
+Lemma step_ginv_trysend sc s r s' : Inv s -> GInv sc s -> step true s (LTrySend r) = Some s' -> GInv sc s'.
+Proof.
+  intros HI [Hsc Hle Hpoll Hsub Hsend Hatt Hhist Hbnd Hsort Hnf Hpq] H.
+  unfold gbound in Hbnd. unfold step in H.
+  destruct (st_pos s) eqn:Ep; try discriminate.
+  destruct (Hsend _ _ eq_refl) as [He Hlt]. unfold cur_entry in He.
+  assert (Hb' : Forall (fun e => complete e = true -> (a_start e < g_consumed (st_g s))%nat) (g_hist (st_g s)))
+    by (eapply bnd_mono; [|exact Hbnd]; lia).
+  destruct (st_rx s); [destruct (zlen (st_pq s) <? st_cp s)|];
+    destruct (r =? _); try discriminate; injection H as H; subst s';
+    constructor; unfold gbound, cur_entry; sf; auto; try discriminate.
+  all: try match goal with
+    | |- Forall (entry_ok _) (_ ++ [_]) => apply Forall_app; split; auto
+    | |- Forall (fun e => complete e = true -> _) (_ ++ [_]) =>
+      apply Forall_app; split; auto; constructor; [|constructor];
+      unfold complete; cbn [a_ds a_start]; intros Hc; apply Hlt; destruct (g_cur (st_g s)); congruence
+    | |- StronglySorted _ _ =>
+      rewrite filter_app, map_app; cbn [filter]; unfold complete at 2; cbn [a_ds];
+      destruct (g_cur (st_g s)); cbn [map]; [|now rewrite app_nil_r];
+      apply sorted_snoc; [exact Hsort|]; apply bnd_filter; exact Hbnd
+    | |- g_fail _ = 0%nat -> _ ++ _ = _ ++ _ => let Hf := fresh in intros Hf; now rewrite (Hnf Hf)
+    | |- exists pre, map a_item (_ ++ [_]) = _ =>
+      destruct Hpq as [pre Hp]; exists pre; rewrite map_app, Hp, app_assoc; reflexivity
+    end.
+Qed.
+
+Lemma step_ginv_polldata sc s len s' : Inv s -> GInv sc s -> step true s (LPollData len) = Some s' -> GInv sc s'.
+Proof.
+  intros [Hprm Hlb Htb Hpbo Hbq Hscr Hpos Hw Ht Hi] [Hsc Hle Hpoll Hsub Hsend Hatt Hhist Hbnd Hsort Hnf Hpq] H.
+  unfold gbound in Hbnd. unfold pos_ok in Hpos. unfold step in H.
+  destruct (st_pos s) eqn:Ep; try discriminate.
+  destruct (st_script s) as [|[d| |] rest] eqn:Es; try discriminate.
+  destruct (nth_error (slots (st_prm s)) (length ds)) as [z|] eqn:En; try discriminate.
+  destruct (st_pending s) as [|p0 pend'] eqn:Epd; try discriminate.
+  destruct ((len =? zlen d) && (zlen d <=? z)) eqn:Ec; try discriminate.
+  apply andb_prop in Ec. destruct Ec as [_ Ec]. apply Z.leb_le in Ec.
+  destruct Hpos as [Hbuf [Hlen [Hfit Hpend]]].
+  assert (Hbd : bytes_ok d) by (exact (Forall_inv Hscr)).
+  pose proof (fits_extend _ _ _ _ Hfit En Hbd Ec) as Hfit'.
+  assert (Hl' : length (ds ++ [d]) = S (length ds)) by (rewrite app_length; cbn [length]; lia).
+  destruct (Hpoll _ _ eq_refl) as [Hc Hseg].
+  assert (Hrest : rest = skipn (S (g_consumed (st_g s))) sc)
+    by (symmetry; eapply skipn_S_cons; symmetry; exact Hsc).
+  assert (Hseg' : firstn (length (ds ++ [d])) (skipn (g_istart (st_g s)) sc) = map XData (ds ++ [d])).
+  { rewrite Hl', map_app. cbn [map]. rewrite <- Hseg. eapply firstn_skipn_snoc.
+    rewrite <- Hc. symmetry. exact Hsc. }
+  destruct (length (ds ++ [d]) =? nslots (st_prm s))%nat eqn:Ek.
+  - apply Nat.eqb_eq in Ek. pose proof Hfit' as Hfit2. unfold nslots in Ek. rewrite Ek, firstn_all in Hfit2.
+    destruct (finish_spec _ _ _ _ _ Hprm Hlb Htb Hbuf Hfit2) as [f [Hf [Hview [Hnp _]]]].
+    rewrite Hf in H. injection H as H. subst s'.
+    constructor; unfold gbound, cur_entry; sf; auto; try discriminate; try lia.
+    intros it keep Hq. injection Hq as <- <-. split; [|intros _; lia].
+    unfold entry_ok. cbn [a_ds a_prm a_start a_item]. split; [|split; [|split]; auto].
+    unfold nslots. rewrite <- Ek. exact Hseg'.
+  - injection H as H. subst s'.
+    constructor; unfold gbound, cur_entry; sf; auto; try discriminate; try lia.
+    intros b0 ds0 Hq. injection Hq as <- <-. split; [lia|exact Hseg'].
+Qed.
+
+Lemma step_ginv sc s l s' : Inv s -> GInv sc s -> step true s l = Some s' -> GInv sc s'.
+Proof.
+  intros HI [Hsc Hle Hpoll Hsub Hsend Hatt Hhist Hbnd Hsort Hnf Hpq] H.
+  unfold gbound in Hbnd.
+  destruct l;
+    try (eapply step_ginv_polldata; [eassumption|constructor; eassumption|eassumption]);
+    try (eapply step_ginv_trysend; [eassumption|constructor; eassumption|eassumption]);
+    step_cases H.
+  all: try (constructor; unfold gbound, cur_entry in *; sf; auto; try discriminate; try congruence).
+  all: try match goal with
+    | Hs : _ :: ?l = skipn ?c ?sc |- ?l = skipn (S ?c) ?sc => symmetry; eapply skipn_S_cons; symmetry; exact Hs
+    | |- Forall (fun e => complete e = true -> _) _ => eapply bnd_mono; [|exact Hbnd]; lia
+    | |- forall it keep, LSend (IErr _) _ = LSend it keep -> _ =>
+      let Hq := fresh in intros ? ? Hq; injection Hq as <- <-; split;
+      [unfold entry_ok; cbn [a_ds a_item]; eexists; reflexivity|intros X; exfalso; apply X; reflexivity]
+    | |- forall b0 ds0, LPoll _ [] = LPoll b0 ds0 -> _ =>
+      let Hq := fresh in intros ? ? Hq; injection Hq as <- <-; cbn [length firstn map]; split;
+      [rewrite (Hsub _ _ eq_refl); lia|reflexivity]
+    | |- forall b0 k0, LSubmit _ _ = LSubmit b0 k0 -> _ => intros; first [exact (Hsub _ _ eq_refl)|reflexivity]
+    | Hq : st_pq _ = ?it :: ?l |- exists pre, _ = pre ++ ?l =>
+      destruct Hpq as [pre Hp]; exists (pre ++ [it]); rewrite Hp, <- app_assoc; reflexivity
+    | Hq : st_pq ?s0 = [] |- exists pre, _ = pre ++ st_pq ?s0 => rewrite Hq; exact Hpq
+    end.
 Qed.
